@@ -11,7 +11,7 @@
    is duplicate-free and grouped by ascending source. *)
 From Coq Require Import ZArith List Bool Lia Sorting.Sorted Permutation.
 From Coq Require Import Reals.
-From Sky Require Import Result PyList Num NumR G_select M_Select M_SelectNum M_SelectTdm S_Select P_Select P_SelectNum P_SelectTdm.
+From Sky Require Import Result PyList Num NumR G_select M_Select M_SelectNum M_SelectTdm S_Select S_SelectNum P_Select P_SelectNum P_SelectTdm P_SelectInst.
 Import ListNotations.
 Local Open Scope nat_scope.
 
@@ -256,19 +256,33 @@ Theorem C05_zargsort_perm : forall l : list Z,
 Proof. exact zargsort_perm. Qed.
 Print Assumptions C05_zargsort_perm.
 
+(* select_events WITHOUT ret_original_evt_idxs — for IntersectionEventSelectionMethod a separate
+   branch of the code (both methods called without the flag, no np.take; pinned by the kernel
+   ix_shape) and the one TrialDataManager.initialize_trial uses (tdm_init is built on run_nr):
+   for every tree, every input, incoming table and every error it returns what the flag=True
+   branch returns minus the original indices *)
+Theorem C05_run_nr : forall (S E : Type) (m : meth S E) (srcs : list S) (evs : list E) (inc : option tbl),
+  run_nr m srcs evs inc = (do r <- run m srcs evs inc; Ok (s_events r, s_tbl r)).
+Proof. exact @run_nr_eq. Qed.
+Print Assumptions C05_run_nr.
+
 (* ---- the criteria themselves, at the real-number reading of the translated formulas
    (RNum erf: the Num instance over R; erf is irrelevant here).  Float rounding is not
    claimed. *)
 
-(* DecBand / SpatialBox: the open declination band around the source, clipped at the poles *)
+(* DecBand / SpatialBox (after fix a53f3be): declination within delta of the source's, the
+   band edges are NOT clipped for the comparison, so an event at a pole is inside the band of
+   a source whose band reaches the pole *)
 Theorem C05_dec_crit : forall (erf : R -> R) (d s e : R),
-  dec_crit (RNum erf) d s e = true <->
-  (Rmax (- PI / 2) (s - d) < e < Rmin (s + d) (PI / 2))%R.
-Proof. exact dec_crit_R. Qed.
+  (dec_crit (RNum erf) d s e = true <-> (s - d < e < s + d)%R)
+  /\ (dec_crit (RNum erf) d s e = true <-> (Rabs (e - s) < d)%R).
+Proof. intros erf d s e. split; [exact (dec_crit_R erf d s e)|exact (dec_crit_abs erf d s e)]. Qed.
 Print Assumptions C05_dec_crit.
 
+(* the clipped band (used only for the RA half width) stays within [-pi/2, pi/2] *)
 Theorem C05_band_in_range : forall (erf : R -> R) (s d : R),
-  (- PI / 2 <= db_dec_minus (RNum erf) s d /\ db_dec_plus (RNum erf) s d <= PI / 2)%R.
+  ((- PI / 2 <= rb_dec_minus (RNum erf) s d /\ rb_dec_plus (RNum erf) s d <= PI / 2)
+   /\ (- PI / 2 <= sb_dec_minus (RNum erf) s d /\ sb_dec_plus (RNum erf) s d <= PI / 2))%R.
 Proof. exact band_in_range. Qed.
 Print Assumptions C05_band_in_range.
 
@@ -289,17 +303,24 @@ Theorem C05_ra_dist_range : forall (erf : R -> R) (e s : R),
 Proof. exact ra_dist_range. Qed.
 Print Assumptions C05_ra_dist_range.
 
-(* np.mod coding (RABand) = np.where coding (SpatialBox) for right ascensions in [0, 2 pi):
-   the two methods keep the same (source, event) pairs in right ascension *)
+(* np.mod coding (RABand) = folded np.mod coding (SpatialBox, after fix f511812) for ALL right
+   ascensions, normalised or not: the two methods keep the same (source, event) pairs in RA *)
 Theorem C05_ra_codings_agree : forall (erf : R -> R) (d sra sdec era : R),
-  (0 <= era < 2 * PI)%R -> (0 <= sra < 2 * PI)%R ->
   rb_ra_dist (RNum erf) era sra = sb_ra_mod (RNum erf) (sb_ra_diff (RNum erf) era sra)
   /\ raband_crit (RNum erf) d sra sdec era = box_ra_crit (RNum erf) d sra sdec era.
 Proof.
-  intros erf d sra sdec era He Hs.
-  split; [exact (ra_codings_agree erf era sra He Hs)|exact (raband_box_same erf d sra sdec era He Hs)].
+  intros erf d sra sdec era.
+  split; [exact (ra_codings_agree erf era sra)|exact (raband_box_same erf d sra sdec era)].
 Qed.
 Print Assumptions C05_ra_codings_agree.
+
+(* closed form of the RA distance: for the multiple k of 2 pi nearest to the RA difference it is
+   |era - sra - 2 pi k| (the distance on the circle), for all right ascensions *)
+Theorem C05_ra_dist_circle : forall (erf : R -> R) (e s : R) (k : Z),
+  (Rabs (e - s - IZR k * (2 * PI)) <= PI)%R ->
+  rb_ra_dist (RNum erf) e s = Rabs (e - s - IZR k * (2 * PI))%R.
+Proof. exact ra_dist_circle. Qed.
+Print Assumptions C05_ra_dist_circle.
 
 (* the batched and the unbatched copy of the RA mask in SpatialBox are the same criterion
    (the premise of wf_meth for MBox) *)
@@ -335,6 +356,42 @@ Theorem C05_angerr_crit : forall (erf : R -> R) (a b fl sra sdec era edec err : 
   angerr_crit (RNum erf) a b fl sra sdec era edec err = true <-> (a * psi + b <= err \/ psi < fl)%R.
 Proof. exact angerr_crit_R. Qed.
 Print Assumptions C05_angerr_crit.
+
+(* ---- the concrete classes: which class applies which criterion (real-number reading) *)
+
+(* DecBandEventSectionMethod written out: the pairs are those with |dec_event - dec_source| < delta *)
+Theorem C05_decband_pairs : forall (erf : R -> R) (delta : R) (srcs : list (R * R)) (evs : list (ev4 (T := R))),
+  0 < length srcs ->
+  exists r orig, run (decband (RNum erf) delta) srcs evs None = Ok r
+    /\ s_orig r = map Z.of_nat orig
+    /\ Forall2 (fun e j => nth_error evs j = Some e) (s_events r) orig
+    /\ StronglySorted lt orig
+    /\ StronglySorted lexlt (s_tbl r)
+    /\ (forall j, In j orig <-> exists k s e, nth_error srcs k = Some s /\ nth_error evs j = Some e
+                                             /\ (Rabs (e_dec e - snd s) < delta)%R)
+    /\ (forall k p, In (Z.of_nat k, Z.of_nat p) (s_tbl r) <->
+          exists j s e, nth_error orig p = Some j /\ nth_error srcs k = Some s /\ nth_error evs j = Some e
+                        /\ (Rabs (e_dec e - snd s) < delta)%R).
+Proof. exact decband_pairs. Qed.
+Print Assumptions C05_decband_pairs.
+
+(* SpatialBoxEventSelectionMethod (batch size of the code, both RA copies) returns exactly what
+   RABandEventSectionMethod & DecBandEventSectionMethod returns, for all inputs *)
+Theorem C05_spatialbox_is_raband_and_decband :
+  forall (erf : R -> R) (delta : R) (srcs : list (R * R)) (evs : list (ev4 (T := R))),
+  0 < length srcs ->
+  exists r r', run (spatialbox (RNum erf) delta) srcs evs None = Ok r
+    /\ run (MAnd (raband (RNum erf) delta) (decband (RNum erf) delta)) srcs evs None = Ok r'
+    /\ s_events r = s_events r' /\ s_tbl r = s_tbl r' /\ s_orig r = s_orig r'.
+Proof. exact spatialbox_is_raband_and_decband. Qed.
+Print Assumptions C05_spatialbox_is_raband_and_decband.
+
+Theorem C05_spatialbox_crit : forall (erf : R -> R) (delta : R) (ns : nat) (s : R * R) (e : ev4 (T := R)),
+  crit_of (spatialbox (RNum erf) delta) ns s e = true <->
+  (rb_ra_dist (RNum erf) (e_ra e) (fst s) < rb_half (RNum erf) delta (snd s))%R
+  /\ (Rabs (e_dec e - snd s) < delta)%R.
+Proof. exact crit_spatialbox. Qed.
+Print Assumptions C05_spatialbox_crit.
 
 (* ---- non-vacuity: concrete instances (sources and events are integers, the band
    criterion is |e - s| < 3, the box is the band twice, batch size 2 < 3 sources so the
